@@ -412,7 +412,9 @@ func c14GenOdd(r *Run, rng *gen.Rng, corpus []string, oddPool []string) *c14Hist
 	mounts := []string{"/sim/m", "/w/my proj", "/srv/a/b", "/mnt/other place/p", "/m2", "/w/100% (x)/p", "/w/a+b [1]", "/w/it's/$HOME", "/w/UPPER/lower", "/" + strings.Repeat("deep/", 12) + "p",
 		"/home/u/.dotfiles/scripts", "/w/proj-1.2/src", "/tmp/tmp.AbC123/p", "/w/a.b/c.d/e", "/w/projet-été/src", "/home/ユーザー/p", "/w/backup-2026-09-24T10:30:00/p", "/w/greeter:v2", "/w/a;b,c=d/p",
 		// next to the std directory, in directories whose names merely begin like it
-		"@EXE/std-examples/p", "@EXE/stdlib", "@EXE/std2/x"}
+		"@EXE/std-examples/p", "@EXE/stdlib", "@EXE/std2/x",
+		// a location that contains every letter, digit and the punctuation of file names
+		"/w/the quick brown fox jumps over the lazy dog_0123456789-h.tsh/p"}
 	exes := []string{"/sim/x", "/opt/tsh/bin", "/usr/local/libexec/t", "/a/first", "/zz/last", "/opt/tsh-1.2/bin"}
 	// phase 0: canonical execution of every (program, target)
 	obj := 100
